@@ -23,7 +23,7 @@ def parsePath (spec : String) : Option (List Nat) :=
   if cs.isEmpty then none
   else if cs.take 2 != ['m', '/'] then none
   else
-    match ((String.ofList (cs.drop 2)).splitOn "/").mapM (fun e => parseElement e.toList) with
+    match (Py.splitOnChar '/' (cs.drop 2)).mapM parseElement with
     | none => none
     | some els => if els.length != 5 then none else some els
 
